@@ -60,6 +60,18 @@ CHECKS = {
         technique="TLA+ spec + TLC exhaustive enumeration of tables and queries, behaviour replay into real code",
         design_ref="DESIGN.md section 5 C09",
     ),
+    "C08": dict(
+        level="model_checking",
+        text=("Mdat.tla models both decode modes side by side (in-memory slice arithmetic with its bounds test; lazy seek+read "
+              "and the work-buffer streaming loop of CopySampleData) over token-coded payloads; TLC enumerates every layout "
+              "(header form, box order, payload length), every valid (start,size) range, every chunking, sample interval and "
+              "work-buffer size, checks Impl => Prop, and each behaviour is replayed on a materialised file decoded in normal, "
+              "lazy and SR mode; range reads on real corpus files are validated as traces by MdatTrace.tla."),
+        note=("Trusted: TLC, Go replayer/materialiser. Payloads up to 9 bytes in the exhaustive part; reads from the ReadSeeker are "
+              "assumed to fill the buffer (bytes.Reader)."),
+        technique="TLA+ spec + TLC exhaustive enumeration, behaviour replay into real code, TLC trace validation on corpus files",
+        design_ref="DESIGN.md section 5 C08",
+    ),
 }
 
 PENDING_REASON = "check not built yet in this revision (planned in DESIGN.md section 5); not claimed until its machinery exists"
